@@ -265,21 +265,12 @@ struct Schedule
 		}
 		else
 		{
+			// position within the week (Sunday 00:00 is 0) against the window [start day at start time, end day at end time];
+			// the window may wrap around the end of the week and may begin and end on the same day
 			const tm result(now.get_tm());
-
-			//cout >> now << ' ' >> (today + _start) << ' ' >> (today + _end) << ' ' << result.tm_wday << endl;
-
-			if (!prev)
-			{
-				if ( ((_start_day > _end_day && (result.tm_wday >= _start_day || result.tm_wday <= _end_day))
-					|| (_start_day < _end_day && result.tm_wday >= _start_day && result.tm_wday <= _end_day))
-					&& now.in_range(today + _start, today + _end))
-						active = true;
-			}
-			else if ( ((_start_day > _end_day && (result.tm_wday < _start_day && result.tm_wday > _end_day))
-					  || (_start_day < _end_day && result.tm_wday >= _end_day))
-						 && now > today + _end)
-					active = false;
+			const Tickval::ticks pos(result.tm_wday * Tickval::day + (now.get_ticks() - today.get_ticks())),
+				from(_start_day * Tickval::day + _start.get_ticks()), to(_end_day * Tickval::day + _end.get_ticks());
+			active = from <= to ? from <= pos && pos <= to : pos >= from || pos <= to;
 		}
 
 		return active;
